@@ -73,7 +73,13 @@ func (idpoolFamily) Gen(n int, seed int64, mode, tier string) []interface{} {
 			queue := []st{{nil}}
 			p0, _ := replayPool(min, max, nil)
 			seen[ivKey(p0.Intervals())] = true
-			for len(queue) > 0 && len(seen) < 5000 {
+			// an intact pool has 20-136 representable states on these ranges and the search ends by
+			// itself; a broken one can have unboundedly many (overlapping intervals), so it is cut
+			limit := 400
+			if tier == "thorough" {
+				limit = 3000
+			}
+			for len(queue) > 0 && len(seen) < limit {
 				cur := queue[0]
 				queue = queue[1:]
 				for _, o := range allOps {
